@@ -24,6 +24,21 @@ PID = 'C15'
 NAME_KINDS = ['str', 'int', 'float', 'mixed', 'str+int', 'str+float', 'int+float']
 
 
+class ModelFault(Exception):
+    pass
+
+
+class FaultyModel(Model):
+    """Model spy that can be armed to raise at a given evaluation."""
+    fail_at = None
+
+    def __call__(self, x):
+        if self.fail_at is not None and isinstance(x, dict) and self.n_calls + 1 >= self.fail_at:
+            self.n_calls += 1
+            raise ModelFault(f"user model failed at evaluation {self.n_calls}")
+        return super().__call__(x)
+
+
 def make_loss(kind, log):
     spy = Loss('scalar', 'sq', log)
     if kind == 'positional':
@@ -98,7 +113,7 @@ def incremental_driver(cfg, T):
         names = list(NAME_SETS[cfg['names']][:cfg['d']])
         names_arg = list(names)
         log = EventLog()
-        model = Model(names, 'scalar', None, log)
+        model = FaultyModel(names, 'scalar', None, log)
         loss = make_loss(cfg['loss'], log)
         storage = build_storage(cfg['storage'], log, None, spy=True)
         cls = IncrementalPFI if cfg['expl'] == 'pfi' else IncrementalSage
@@ -142,6 +157,28 @@ def incremental_driver(cfg, T):
             names_before = list(names_arg)
             seen_before = ex.seen_samples
             mark = log.mark()
+            fault_at = run.choose(2 + cfg['d'] * n_eff, 'model-fault-at-evaluation', None, 0) if (t == T - 1 and t >= 1) else 0
+            if fault_at:
+                # the user's model raises at its fault_at-th evaluation of this call: x (and the names) must be untouched
+                model.fail_at = model.n_calls + fault_at
+                y_before = copy.deepcopy(y)
+                try:
+                    ex.explain_one(x_in, y, **opts)
+                    bad('model-exception-swallowed', cfg, f"call {t + 1}: the model raised at evaluation {fault_at} but "
+                                                          f"explain_one returned normally")
+                except ModelFault:
+                    pass
+                except Violation:
+                    raise
+                except Exception as e:
+                    bad('explain-raised', cfg, f"call {t + 1}: {type(e).__name__}: {e!r} instead of the model's exception")
+                model.fail_at = None
+                if x_in != x_before or list(x_in.keys()) != list(x_before.keys()):
+                    bad('x-modified-after-fault', cfg, f"call {t + 1} (options {opts}): the model raised at its evaluation "
+                                                       f"{fault_at} of the call and x was left modified: {x_in} (was {x_before})")
+                if names_arg != names_before:
+                    bad('names-modified', cfg, f"call {t + 1}: the feature-name list was modified to {names_arg!r}")
+                break
             try:
                 ret = ex.explain_one(x_in, y, **opts)
             except Exception as e:
